@@ -294,11 +294,11 @@ def rule_r3(ctx: Ctx) -> None:
                     while isinstance(base, ast.Subscript):
                         base = base.value
                     d = dotted(base)
-                    if d and d.startswith("self.") and (c.name, d.split(".")[1]) not in MEMO_SLOTS:
+                    if d and d.startswith("self.") and c.name != "MemoizationOperator":
                         offenders.append("%s: %s" % (fn.name, norm(n)[:60]))
                 if isinstance(n, ast.Call) and isinstance(n.func, ast.Attribute) and n.func.attr in MUTATORS:
                     d = dotted(n.func.value)
-                    if d and d.startswith("self.") and (c.name, d.split(".")[1]) not in MEMO_SLOTS:
+                    if d and d.startswith("self.") and c.name != "MemoizationOperator":
                         offenders.append("%s: %s" % (fn.name, norm(n)[:60]))
         ctx.check(not offenders, c.short, "no state change outside __init__", "model objects are immutable values", c.module.relpath, offenders[:4], nontrivial=bool(c.methods))
 
